@@ -3,6 +3,7 @@ package main
 import (
 	"fmt"
 	"go/types"
+	"strings"
 
 	"golang.org/x/tools/go/ssa"
 )
@@ -195,4 +196,127 @@ func init() {
 		st = ex.store(st, pc, ex.fieldAddr(args[0], t, oi), types.Typ[types.Int], intLit(0))
 		return st, Term{Tuple: []Term{m, err}}, true
 	}
+}
+
+// externName: the key of a library model; instances of a generic function share
+// the model of their origin.
+func externName(callee *ssa.Function) string {
+	if o := callee.Origin(); o != nil && o != callee {
+		return o.String()
+	}
+	return callee.String()
+}
+
+// ---- slices.Index / slices.Contains on slices of scalar (pointer, integer) elements ----
+
+func init() {
+	search := func(contains bool) externModel {
+		return func(ex *Exec, fr *Frame, instr ssa.CallInstruction, c *ssa.CallCommon, args []Term, pc Term, st State) (State, Term, bool) {
+			sl, ok := c.Args[0].Type().Underlying().(*types.Slice)
+			if !ok || !scalarType(sl.Elem()) {
+				return st, Term{}, false
+			}
+			ex.modelUsed("slices.Index / slices.Contains: the first index holding the value, or -1 / false when no element equals it")
+			s, v := args[0], args[1]
+			so := ex.te.sortOf(sl.Elem())
+			h := ex.get(st, cellKey(sl.Elem()), arraySort(SRef, so))
+			i := ex.vc.fresh("index", SInt)
+			at := func(k string) string { return fmt.Sprintf("(select %s (at %s %s))", h.S, s.S, k) }
+			ex.vc.assume(pc, T(fmt.Sprintf("(and (<= (- 1) %s) (< %s %s) (=> (>= %s 0) (= %s %s)))", i.S, i.S, sLen(s).S, i.S, at(i.S), v.S), SBool), "slices.Index: result in range and a match")
+			ex.vc.assume(pc, T(fmt.Sprintf("(forall ((k Int)) (! (=> (and (<= 0 k) (< k %s) (or (< %s 0) (< k %s))) (not (= %s %s))) :pattern (%s)))", sLen(s).S, i.S, i.S, at("k"), v.S, at("k")), SBool), "slices.Index: no earlier match")
+			if contains {
+				return st, ex.vc.def("contains", app(SBool, ">=", i, intLit(0))), true
+			}
+			return st, i, true
+		}
+	}
+	externModels["slices.Index"] = search(false)
+	externModels["slices.Contains"] = search(true)
+}
+
+// inSliceCells emits (and names) a predicate Ref->Bool that is true for the
+// cells of leaf lf that belong to elements [0, n) of slice s.
+func (ex *Exec) inSliceCells(lf leafAcc, s, n Term) string {
+	ex.vc.n++
+	name := fmt.Sprintf("incells!%d", ex.vc.n)
+	probe := lf.addr("X")
+	up := "r"
+	conds := []string{}
+	for i := 0; i < strings.Count(probe, "(fld "); i++ {
+		conds = append(conds, fmt.Sprintf("((_ is fld) %s)", up))
+		up = fmt.Sprintf("(fparent %s)", up)
+	}
+	conds = append(conds, fmt.Sprintf("((_ is elem) %s)", up), fmt.Sprintf("(= r %s)", lf.addr(up)), fmt.Sprintf("(= (ebase %s) %s)", up, sBase(s).S))
+	idx := fmt.Sprintf("(- (eidx %s) %s)", up, sOff(s).S)
+	conds = append(conds, fmt.Sprintf("(<= 0 %s)", idx), fmt.Sprintf("(< %s %s)", idx, n.S))
+	ex.vc.decls = append(ex.vc.decls, fmt.Sprintf("(define-fun %s ((r Ref)) Bool (and %s))", name, strings.Join(conds, " ")))
+	return name
+}
+
+// ---- slices.SortFunc: the slice afterwards is a rearrangement of the slice before ----
+
+func init() {
+	externModels["slices.SortFunc"] = func(ex *Exec, fr *Frame, instr ssa.CallInstruction, c *ssa.CallCommon, args []Term, pc Term, st State) (State, Term, bool) {
+		sl, ok := c.Args[0].Type().Underlying().(*types.Slice)
+		if !ok {
+			return st, Term{}, false
+		}
+		el := sl.Elem()
+		if containsArray(el) {
+			return st, Term{}, false
+		}
+		ex.modelUsed("slices.SortFunc: every element afterwards is an element of the slice before (new[j] = old[perm(j)], 0 <= perm(j) < len); nothing outside the slice changes except what the comparison function writes")
+		s := args[0]
+		leaves := ex.leaves(el)
+		own := map[string]bool{}
+		for _, lf := range leaves {
+			own[lf.key] = true
+		}
+		// effects of the comparison function (and anything else in the inferred frame)
+		rest := map[string]bool{}
+		for k := range ex.g.siteFrame(instr) {
+			if !own[k] {
+				rest[k] = true
+			}
+		}
+		if len(rest) > 0 {
+			before := st
+			st = ex.havocKeys(st, rest, "slices.SortFunc comparison")
+			ex.preserveLocals(fr, pc, before, st, rest, c)
+		}
+		ex.vc.n++
+		perm := fmt.Sprintf("perm!%d", ex.vc.n)
+		ex.vc.decls = append(ex.vc.decls, fmt.Sprintf("(declare-fun %s (Int) Int)", perm))
+		n := sLen(s)
+		ex.vc.assume(pc, T(fmt.Sprintf("(forall ((j Int)) (! (=> (and (<= 0 j) (< j %s)) (and (<= 0 (%s j)) (< (%s j) %s))) :pattern ((%s j))))", n.S, perm, perm, n.S, perm), SBool), "sort: rearrangement indices in range")
+		for _, lf := range leaves {
+			so := arraySort(SRef, lf.so)
+			h := ex.get(st, lf.key, so)
+			nh := ex.vc.fresh("H_"+shortKey(lf.key), so)
+			dst := lf.addr(fmt.Sprintf("(at %s j)", s.S))
+			src := lf.addr(fmt.Sprintf("(at %s (%s j))", s.S, perm))
+			ex.vc.assume(pc, T(fmt.Sprintf("(forall ((j Int)) (! (=> (and (<= 0 j) (< j %s)) (= (select %s %s) (select %s %s))) :pattern ((select %s %s))))", n.S, nh.S, dst, h.S, src, nh.S, dst), SBool), "sort: element j is the old element perm(j)")
+			in := ex.inSliceCells(lf, s, n)
+			ex.vc.assume(pc, T(fmt.Sprintf("(forall ((r Ref)) (! (=> (not (%s r)) (= (select %s r) (select %s r))) :pattern ((select %s r))))", in, nh.S, h.S, nh.S), SBool), "sort: frame")
+			st = st.with(lf.key, nh)
+		}
+		return st, Term{}, true
+	}
+}
+
+// containsArray: the value type holds an array somewhere inside (those cells are
+// not tracked element-wise by the slice models).
+func containsArray(t types.Type) bool {
+	if _, ok := isArray(t); ok {
+		return true
+	}
+	if isStruct(t) {
+		stt := t.Underlying().(*types.Struct)
+		for i := 0; i < stt.NumFields(); i++ {
+			if containsArray(stt.Field(i).Type()) {
+				return true
+			}
+		}
+	}
+	return false
 }
